@@ -594,12 +594,35 @@ Fixpoint known_match_unwind_with (cs : list clause) : bool :=
   | c :: rest =>
       (match c, rest with
        | CMatch _ _ _, CUnwind _ _ :: CWith _ _ :: _ => true
+       | CUnwind _ _, CWith _ _ :: CUnwind _ _ :: _ => true
        | _, _ => false
        end) || known_match_unwind_with rest
   end.
 
+(* after a WITH, a MATCH that puts labels or inline properties on a node variable the WITH
+   carries over does not check them (the node is taken as it is) *)
+Definition npat_constrains (bound : list N) (np : npat expr) : bool :=
+  match np_var np with
+  | Some x => memN x bound && (match np_labels np with [] => false | _ => true end
+                               || match np_props np with [] => false | _ => true end)
+  | None => false
+  end.
+Definition ppat_constrains_bound (bound : list N) (p : ppat expr) : bool :=
+  npat_constrains bound (fst p) || existsb (fun s : rpat expr * npat expr => npat_constrains bound (snd s)) (snd p).
+
+Fixpoint known_bound_after_with (after_with : bool) (bound : list N) (cs : list clause) : bool :=
+  match cs with
+  | [] => false
+  | CMatch _ ps _ :: rest =>
+      (after_with && existsb (ppat_constrains_bound bound) ps)
+      || known_bound_after_with after_with (flat_map ppat_vars ps ++ bound) rest
+  | CUnwind _ x :: rest => known_bound_after_with after_with (x :: bound) rest
+  | CWith p _ :: rest => known_bound_after_with true (map snd (p_items p)) rest
+  end.
+
 Definition Known_syntactic (q : query) : bool :=
-  existsb (fun s => known_varlen s || known_optwhere s || known_match_unwind_with (q_clauses s)) (q_parts q).
+  existsb (fun s => known_varlen s || known_optwhere s || known_match_unwind_with (q_clauses s)
+                    || known_bound_after_with false [] (q_clauses s)) (q_parts q).
 
 (* some projection of the query carries a LIMIT: the engine may stop evaluating before it reaches
    the row on which the reference semantics raises an arithmetic error *)
